@@ -25,9 +25,11 @@ ASSUMPTIONS = ['"normalising an already normalised URL" re-parses the normal for
                '(default_scheme http, encoding utf-8), as the crawler does with URLs from its table',
                'document encodings are ASCII-compatible stateless codecs (utf-8, latin-1, ascii, cp1252, shift_jis, '
                'koi8-r, gbk, euc-kr, big5); see notes/C10.md for utf-16']
-UNPROVED = ['C10_full (composed norm_idem / norm_reparse for every accepted string): proved per component '
-            '(see lean/obligations/C10.json), the split-back of the reassembled string is not yet a theorem',
-            'norm_equiv for IPv6 notation and IDNA mapping: parameters of the model']
+UNPROVED = ['norm_equiv as one composed theorem (equal normal form for all spellings of one URL): proved per component '
+            '(ipv4_normal_form_fixed: all IPv4 spellings; flatten_clean: dot/empty segments; upperPct_*: escape case; '
+            'scheme_lower/hostname_lower_ascii: case; default_port_elided/nondefault_port_kept: port), checked whole by the oracle',
+            'IPv6 text parsing, IDNA ToASCII of non-ASCII hosts, urllib.parse.unquote and str.lower of non-ASCII text are parameters '
+            'of the model; the theorems state their hypotheses (ReparseParams, V6Params, PrintParams) and the harness monitors them']
 
 
 def equivalence(ctx, wu, spec, cases):
